@@ -338,9 +338,10 @@ pub fn configs(ctx: &Ctx) -> Vec<(usize, i64, usize)> {
     for &w in &workers {
         let wi = w as i64;
         let mut days = vec![0, 1, 2, 3, wi - 1, wi, wi + 1, 2 * wi - 1, 2 * wi + 1, 365, 366, 1000];
-        if ctx.thorough {
-            days.push(6000);
-        }
+        // spans beyond 4096 days (tables / chunks sized in powers of two): cheap under policy None, which the quick
+        // tier forces for them
+        days.push(4099);
+        days.push(6000);
         days.sort();
         days.dedup();
         for d in days {
@@ -395,7 +396,7 @@ pub fn run(ctx: &Ctx, st: &mut Stats) {
         let c = Case {
             site: site(&mut r),
             method: r.int(1, 8) as usize,
-            default_policy: r.chance(0.3),
+            default_policy: r.chance(0.3) && (*d <= 1000 || ctx.thorough),
             start: d2s(from_ce(r.int(day_lo() as i64, day_hi() as i64 - 6100) as i32)),
             days: *d,
             workers: *w,
